@@ -141,6 +141,10 @@ def sweep(ctx, n):
             cid = int(last[-1].split()[1]) if last else batch[0]["id"]
             c = next(x for x in batch if x["id"] == cid)
             hung += 1
+            if hung >= 3:  # enough evidence; every further hanging batch would cost its full wall limit
+                fails.append({"key": f"hang-or-crash:{c['cls']}:{c['variant']}", "desc": "field evaluation did not terminate within the wall limit (or the worker crashed)",
+                              "replay": {"class": c["cls"], "kw": c["kw"], "observers": c["obs"], "log_tail": log[-400:]}})
+                break
             fails.append({"key": f"hang-or-crash:{c['cls']}:{c['variant']}", "desc": "field evaluation did not terminate within the wall limit (or the worker crashed)",
                           "replay": {"class": c["cls"], "kw": c["kw"], "observers": c["obs"], "log_tail": log[-400:]}})
             continue
